@@ -60,6 +60,7 @@ import (
 	"io"
 	"net/http"
 	"net/http/httptest"
+	"os"
 	"regexp"
 	"runtime/debug"
 	"sort"
@@ -256,6 +257,9 @@ func run(t *testing.T, tape *simrt.Tape) *common.Outcome {
 	}
 	// non-trivial: at least one proven identity reached Next and the adversary acted at least once
 	o.Nontrivial = w.legitNext >= 1 && w.attacks+w.tampered >= 1
+	if os.Getenv("C19_TRACE") != "" {
+		fmt.Fprintf(os.Stderr, "=== run sig=%s\n%s\n", o.Sig, strings.Join(o.Trace, "\n"))
+	}
 	return o
 }
 
@@ -758,12 +762,14 @@ func (w *world) call(c *clientSim, s *serverSim, host string, mode int) {
 func (w *world) provenServer(ctx *callCtx, sid peer.ID) (bool, string) {
 	c := ctx.cli
 	var css []string
-	bearerFirst := false
+	// token path: the call did not open with a fresh challenge, i.e. the client relied on what it stored
+	// for this hostname after an earlier handshake (a bearer token, possibly a degenerate one)
+	storedFirst := false
 	for i, a := range ctx.reqs {
 		ps := lenientParams(a)
 		css = append(css, ps["challenge-server"]...)
-		if i == 0 && len(ps["bearer"]) > 0 {
-			bearerFirst = true
+		if i == 0 && len(ps["challenge-server"]) == 0 {
+			storedFirst = true
 		}
 	}
 	var sigs [][]byte
@@ -784,7 +790,7 @@ func (w *world) provenServer(ctx *callCtx, sid peer.ID) (bool, string) {
 			}
 		}
 	}
-	if bearerFirst {
+	if storedFirst {
 		if lp, ok := c.lastProven[ctx.host]; ok && lp == sid {
 			return true, "cached-with-token"
 		}
@@ -1247,6 +1253,7 @@ func (w *world) atkMallorySigned() {
 	if pub != "" {
 		h.ps = append(h.ps, hp{k: "public-key", v: pub})
 	}
+	h.ps = append(h.ps, hp{k: "challenge-server", v: b64(bytes.Repeat([]byte{'m'}, 32))})
 	h.ps = append(h.ps, hp{k: "sig", v: w.mal.sign(clientSigData(chal, spub, shost))}, hp{k: "opaque", v: c.b64})
 	mut := "none"
 	if g.Chance(1, 4) {
@@ -1279,7 +1286,8 @@ func (w *world) atkBlobConfusion() {
 		if g.Chance(1, 3) {
 			chal = b64(bytes.Repeat([]byte{0}, 32))
 		}
-		h := &hdr{sep: ", ", ps: []hp{{k: "public-key", v: b64(w.mal.pubB)}, {k: "sig", v: w.mal.sign(clientSigData(chal, t.srv.pubB, t.host))}, {k: "opaque", v: t.b64}}}
+		h := &hdr{sep: ", ", ps: []hp{{k: "public-key", v: b64(w.mal.pubB)}, {k: "challenge-server", v: b64(bytes.Repeat([]byte{'m'}, 32))},
+			{k: "sig", v: w.mal.sign(clientSigData(chal, t.srv.pubB, t.host))}, {k: "opaque", v: t.b64}}}
 		w.send(t.srv, t.host, h, fmt.Sprintf("token-as-challenge #%d(of %s@%s) emptyChallenge=%v", i, w.name(t.peer), t.srv.name, chal == ""), nil)
 	case 1: // challenge state presented as bearer token
 		if len(w.chals) == 0 {
@@ -1665,13 +1673,14 @@ func (w *world) mutate(h *hdr, varLenSig bool, min int) string {
 		p.v = strings.TrimRight(p.v, "=")
 		return "neutral:strip-padding(" + on + ")"
 	case 17:
+		// '-','_' -> '+','/'; whether the value contains any is random, so the label does not say: when
+		// there is none the value gets an extra '=' instead (both are refused by a base64url decoder)
 		n := strings.NewReplacer("-", "+", "_", "/").Replace(p.v)
 		if n == p.v {
-			p.v += "="
-			return "text:extra-pad(" + on + ")"
+			n += "="
 		}
 		p.v = n
-		return "neutral:std-alphabet(" + on + ")"
+		return "text:std-alphabet(" + on + ")"
 	case 18:
 		p.v = p.v[:len(p.v)/2] + " " + p.v[len(p.v)/2:]
 		return "text:space-inside(" + on + ")"
